@@ -37,8 +37,8 @@ MANIFEST = dict(
          "bytes the written prefix, the writer's error and exact consumption (clean) are proved for replies copied in one piece. Tied to "
          "resp.go on every run incl. truncation of the input at every byte and writer failure at many bytes.",
     note="Two defects of streamTo were found and repaired (fix: commits in the repository): a failing writer desynchronised the connection while "
-         "the reply was reported clean; a streamed string abandoned after an error was reported clean. Not proved, observed only: every "
-         "truncated reply is unclean; streamed string + failing writer is unclean. Connection recycling: Props/C29b.v.",
+         "the reply was reported clean; a streamed string abandoned after an error was reported clean. Truncation at every byte is proved for counted strings, observed for the other kinds; "
+         "streamed string + failing writer (unclean) is observed only. Connection recycling: Props/C29b.v.",
     technique="Coq proof (per reply kind, induction over chunk lists) + differential run with failure injection on both sides",
     category="proof",
 )
